@@ -24,8 +24,9 @@ pub struct EnvSpec {
     pub batch_size: usize,
     pub pool_kind: String,
     pub pool_limit: usize,
-    pub neighbour: Vec<(u64, usize)>,
+    pub neighbour: Vec<(u64, usize, Option<u64>)>,
     pub max_spill_file: usize,
+    pub merge_fan_in: usize,
     pub read_chunk: usize,
     pub pending_every: u64,
     pub disk_faults: Vec<Fault>,
@@ -38,19 +39,34 @@ impl EnvSpec {
     /// `pressure`: whether memory limits small enough to force spilling are in the mix.
     pub fn generate(rng: &mut Rng, pressure: bool) -> Value {
         let (kind, limit) = if pressure && rng.chance(1, 2) {
-            (*rng.pick(&["greedy", "fair"]), *rng.pick(&[0u64, 300, 1_000, 4_000, 20_000, 100_000]))
+            // fixed steps and arbitrary values in between (thresholds such as "one merge stream fits,
+            // two do not" are only met by limits that are not round numbers)
+            let limit = match rng.below(3) {
+                0 => rng.below(8_000),
+                1 => rng.below(40_000),
+                _ => *rng.pick(&[0u64, 300, 1_000, 4_000, 20_000, 100_000]),
+            };
+            (*rng.pick(&["greedy", "fair"]), limit)
         } else {
             ("unbounded", 0)
         };
-        let neighbour: Vec<Value> = if kind != "unbounded" && rng.chance(1, 3) {
+        let mut neighbour: Vec<Value> = if kind != "unbounded" && rng.chance(1, 3) {
             (0..rng.range(1, 3)).map(|_| json!([rng.below(12), rng.below(limit.max(1) + 1)])).collect()
         } else {
             vec![]
         };
+        // "squeeze" steps: at the n-th growth request the neighbour takes everything that is free except
+        // `leave` bytes and gives it back `dur` requests later
+        if kind != "unbounded" && rng.chance(1, 3) {
+            for _ in 0..rng.range(1, 3) {
+                neighbour.push(json!([rng.below(80), rng.below(6_000), rng.range(1, 8)]));
+            }
+        }
         json!({
             "batch_size": *rng.pick(&[1u64, 2, 3, 8, 64, 8192]),
             "pool": {"kind": kind, "limit": limit, "neighbour": neighbour},
             "max_spill_file": *rng.pick(&[1u64, 200, 2_000, 100_000_000]),
+            "merge_fan_in": *rng.pick(&[0u64, 0, 2, 2, 3, 8]),
             "disk": {"read_chunk": *rng.pick(&[0u64, 0, 1, 13, 100]), "pending_every": *rng.pick(&[0u64, 0, 1, 3]), "faults": []},
             "compression": *rng.pick(&["uncompressed", "uncompressed", "lz4_frame", "zstd"]),
             "sort_spill_reservation": *rng.pick(&[0u64, 64, 1024, 10_485_760]),
@@ -62,7 +78,7 @@ impl EnvSpec {
         let mut neighbour = vec![];
         for n in pool.get("neighbour")?.as_array()? {
             let a = n.as_array()?;
-            neighbour.push((a.first()?.as_u64()?, a.get(1)?.as_u64()? as usize));
+            neighbour.push((a.first()?.as_u64()?, a.get(1)?.as_u64()? as usize, a.get(2).and_then(|d| d.as_u64())));
         }
         let disk = v.get("disk")?;
         let mut disk_faults = vec![];
@@ -80,6 +96,7 @@ impl EnvSpec {
             pool_limit: pool.get("limit")?.as_u64()? as usize,
             neighbour,
             max_spill_file: (v.get("max_spill_file")?.as_u64()? as usize).max(1),
+            merge_fan_in: v.get("merge_fan_in").and_then(|x| x.as_u64()).unwrap_or(0) as usize,
             read_chunk: disk.get("read_chunk")?.as_u64()? as usize,
             pending_every: disk.get("pending_every")?.as_u64()?,
             disk_faults,
@@ -103,7 +120,9 @@ impl EnvSpec {
         let rt = RuntimeEnvBuilder::new()
             .with_memory_pool(pool.clone())
             .with_disk_manager_builder(
-                DiskManagerBuilder::default().with_mode(DiskManagerMode::Custom(Arc::new(SimDiskFactory(disk.clone())))),
+                DiskManagerBuilder::default()
+                    .with_mode(DiskManagerMode::Custom(Arc::new(SimDiskFactory(disk.clone()))))
+                    .with_max_spill_merge_fan_in(self.merge_fan_in),
             )
             .build_arc()
             .expect("runtime env");
